@@ -14,6 +14,7 @@ import flow
 import gen
 import mockca
 import vlib
+from ext import acmeobj
 
 FINISH = dict(
     level="proof",
@@ -24,7 +25,12 @@ FINISH = dict(
         "(URN, variant, is_recoverable) tabulated by the COMPILED code through probe op `tables` (Gen/Tables)",
         "py/mockca.py + py/flow.py: mock CA log (request order, nonces, payloads), hook recorder (is_success)",
         "py/props/c08.py classify(): the harness's reading of an answer (Spec/C08.lean header), incl. the serde "
-        "typing of HttpApiError {type: string?, status: usize?, detail: string?}",
+        "typing of HttpApiError {type: string?, status: usize?, detail: string?} — cross-checked on every POST answer "
+        "served against Model/AcmeObj classifyAnswer (py/ext/acmeobj.py cross_check_classify)",
+        "py/ext/acmeobj.py (generator of object texts and answers, reading of serde's error messages), "
+        "probe/ops_acmeobj.rs (loop-back HTTP server; HttpApiError's private fields read back through its public "
+        "get_type / Display / Debug), the lexical layer of Model/AcmeObj (lex, decodeStr, numVal, strictErr) that "
+        "Spec/C08Obj shares with the model",
         "modelled, not verified: reqwest/hyper (send, redirects, body reading), tokio; a body cut short "
         "(`unreadable`) and a failing JWS builder are in the model and the theorems but not injected",
     ],
@@ -38,7 +44,16 @@ FINISH = dict(
          "0,5,19,20,25 polls or never.  One daemon run per plan; the CA log is cut into logical requests "
          "(consecutive POSTs of identical URL+payload+key), each judged by Spec.C08.holds 10 (pollHolds 20) "
          "and compared with Http.post/Http.poll fed the served answers.  non-trivial = at least one faulty "
-         "answer or one poll served.",
+         "answer or one poll served.  Text -> object layer (py/ext/acmeobj.py): valid Let's-Encrypt-shaped "
+         "directory / account / order / authorization / challenge / problem / identifier texts from a schema and "
+         "their mutations (member deleted / null / every other JSON type / duplicated / renamed, enum words in "
+         "other cases and in object form, number forms up to the f64 overflow boundary, escapes incl. unpaired "
+         "surrogates, struct-as-array forms, nesting around serde_json's recursion limit, white space, "
+         "truncations, non-JSON), > 6000 texts in one probe batch (REAL from_str and serde_json::from_str::<T>) "
+         "and one model batch: accepted/refused, canonical object and error class compared, "
+         "Spec.C08Obj.neverSuccess judged on the real result; (status, content type, body) answers through the "
+         "REAL http::post_jose / http::get against a loop-back server, compared with classifyAnswer / stepOutcome "
+         "and judged; AcmeError::from on URNs and near misses.",
 )
 
 ERR = mockca.ERR
@@ -337,6 +352,9 @@ def fetch_ok(c):
     return c["cls"] == "ok2xx" and c["nonce"] is not None
 
 
+CLASSIFIED = []     # (status, body, class) of every POST answer read by classify(): cross-checked by ext/acmeobj
+
+
 def analyse(scn, run):
     """Cuts the CA log of the first attempt into logical requests.  Returns (items, info): items are
     the judge / model questions with their context."""
@@ -373,6 +391,7 @@ def analyse(scn, run):
             elif rq["rk"] == "order":
                 phase = "orderValid" if seen_final else "orderReady"
             c = classify(an, text, phase)
+            CLASSIFIED.append(((an or {}).get("status"), text, c["cls"]))
             hdr = rq.get("hdr") or {}
             content = hashlib.sha1(json.dumps(
                 [rq["path"], rq.get("payload_b64"), hdr.get("kid"), hdr.get("jwk"), hdr.get("alg"), hdr.get("url"),
@@ -621,6 +640,9 @@ def run(ctx):
     finally:
         helper.close()
     evaluate(ctx, scns, runs)
+    # the text -> object layer (serde's reading of the bodies, http.rs's classification of an answer)
+    acmeobj.extend(ctx, tables["acme_errors"], retry_bound=10)
+    acmeobj.cross_check_classify(ctx, CLASSIFIED)
     ctx.assumptions = [
         "one client, one certificate, one identifier per run: requests reach the CA in program order",
         "a logical request = consecutive POSTs with identical URL, payload, key id/jwk, algorithm and content "
@@ -636,6 +658,10 @@ def replay(ctx):
     with open(ctx.replay) as f:
         r = json.load(f)
     obj = r.get("replay") or r.get("context") or r
+    if obj.get("kind") == "acmeobj":
+        rc = acmeobj.replay(ctx, obj, gen.gen_tables()["acme_errors"])
+        print("C08 replay: %s" % ("FAILS on this input" if rc else "holds on this input"))
+        return rc
     scn = obj["scenario"]
     helper = mockca.Helper()
     try:
